@@ -101,6 +101,8 @@ class C04(common.Spec):
                     def fired(*a):
                         state['pending'].pop(hid, None)
                         steps.append(['fire', loop.vt_us, hid])
+                        if len(steps) > 400:
+                            raise vloop.HarnessTimeout('endless timer activity')
                         return cb(*a)
                     h = orig_call_later(delay, fired, *args, **kw2)
                     state['pending'][hid] = h
@@ -213,7 +215,7 @@ class C04(common.Spec):
         # the initialisation event is the first step: Goto(default) at time 0
         init = d['init']
         steps = [f"TExt 0%Z {c_etype(init[0])} {c_dval(init[1]) if init[1] else 'DNoneV'} (Ok true)"]
-        for s in obs['steps']:
+        for s in obs['steps'][:420]:
             if s[0] == 'ext':
                 r = f"(Ok {cbool(s[4][1])})" if s[4][0] == 'ok' else f"(Err {s[4][1]})"
                 steps.append(f"TExt {cz(s[1])} {c_etype(s[2])} {c_dval(s[3]) if s[3] else 'DNoneV'} {r}")
